@@ -63,6 +63,13 @@ KUNITS['K-KERN'] = [H(k['name'], False,
                       functions=['src/octets.rs ' + k['kernel']]) for k in _KERN]
 KJOBS['K-KERN'] = 16
 
+KUNITS['K-SLABMEM'] = [H('symbol_slab::verif_hooks::kani_slab::slab_%s%s' % (op, m), False, covers=False, timeout='20m',
+                          bound='3 symbols, symbol sizes %s, scalar 0x53, %s reorder mapping; portable kernels' % ('1..16' if op == 'add_assign' else '{1, 8, 15}', 'with' if m else 'without'),
+                          functions=['src/symbol_slab.rs SymbolSlab::add_assign / mulassign_scalar / fma / get_pair_mut / get_mut (real bodies incl. raw-pointer borrow)'] if (m == '' and op == 'add_assign') else [])
+                        for m in ('', '_mapped') for op in ('add_assign', 'mulassign', 'fma')] + [
+    H('symbol_slab::verif_hooks::kani_slab::slab_pair_refuses_bad_indices', False, bound='3 symbols of 4 bytes', refusal=True, covers=False)]
+KJOBS['K-SLABMEM'] = 9
+
 # Verus gives no counterexample: these Kani harnesses of the same contract are run only after a Verus obligation failed
 WITNESS = {
     'V-RNG': [H('rng::verif_hooks::kani_rng::rand_xor_value_matches_rfc', True, timeout='10m')],
